@@ -262,12 +262,22 @@ func (t Percentage) serializeTo(writer io.StringWriter) {
 func (t Dimension) serializeTo(writer io.StringWriter) {
 	writer.WriteString(t.Value)
 	// Disambiguate with scientific notation
-	if t.Unit == "e" || t.Unit == "E" || strings.HasPrefix(t.Unit, "e-") || strings.HasPrefix(t.Unit, "E-") {
-		writer.WriteString("\\65 ")
+	if unitLooksLikeExponent(t.Unit) {
+		// escape the leading 'e' or 'E', preserving its case
+		writer.WriteString(fmt.Sprintf("\\%X ", t.Unit[0]))
 		writer.WriteString(serializeName(t.Unit[1:]))
 	} else {
 		writer.WriteString(serializeIdentifier(t.Unit))
 	}
+}
+
+// unitLooksLikeExponent returns true if the unit, written right after a number,
+// could be read as (the start of) a scientific notation exponent.
+func unitLooksLikeExponent(unit string) bool {
+	if unit == "" || (unit[0] != 'e' && unit[0] != 'E') {
+		return false
+	}
+	return len(unit) == 1 || unit[1] == '-' || ('0' <= unit[1] && unit[1] <= '9')
 }
 
 func (t ParenthesesBlock) serializeTo(writer io.StringWriter) {
